@@ -215,6 +215,10 @@ LittleStep ==
 Next == st = "run" /\ IF MLe THEN LittleStep ELSE BigStep
 Spec == Init /\ [][Next]_vars
 
+FairSpec == Spec /\ WF_vars(Next)
+\* C08: the reader always comes to an end (every step consumes input; no byte string makes it loop)
+Terminates == <>(st \in {"ok", "fail"})
+
 \* M |= R at termination
 MeetsR == st \in {"ok", "fail"} =>
             RObsOK(MTab, MLe, MListo, inp, IF st = "ok" THEN 0 ELSE 1, out, FALSE)
